@@ -34,7 +34,53 @@ package transmit
 //@   let p = d.dispatchPool
 //@   let stopCh = d.stop
 //@   ensures[dispatcher-told-to-stop] stopCh != nil ==> closedN(stopCh) == 1
-//@   ensures[table-emptied-and-pool-awaited] d.eventBatches == nil && waitN(p) == old(waitN(p)) + 1
+//@   ensures[table-emptied-and-pool-awaited] len(d.eventBatches) == 0 && waitN(p) == old(waitN(p)) + 1
 //@   ensures[no-error] result == nil
-//@   loop 1 invariant d != nil && toInt(d.dispatchPool) == toInt(p) && waitN(p) == old(waitN(p)) && d.eventBatches == nil && (stopCh != nil ==> closedN(stopCh) == 1)
+//@   loop 1 invariant d != nil && toInt(d.dispatchPool) == toInt(p) && waitN(p) == old(waitN(p)) && len(d.eventBatches) == 0 && (stopCh != nil ==> closedN(stopCh) == 1)
 //@   modifies d.eventBatches, d.dispatchPool, d.stop, all(goN), all(waitN), all(closedN)
+
+// ---- C26: every event handed to the transmission is placed exactly once, in the batch of its own
+// destination (API host, API key, dataset); a batch is handed to the sending pool as soon as it holds
+// MaxBatchSize events, so a pending batch always holds fewer.
+//@ keytype github.com/honeycombio/refinery/transmit.transmitKey
+//@ spec destOf(ev *types.Event) transmitKey := transmitKey{apiHost: ev.APIHost, apiKey: ev.APIKey, dataset: ev.Dataset}
+//@ assume github.com/jonboulle/clockwork.Clock.Now getter
+//@ contract transmit.(*DirectTransmission).EnqueueEvent props C26
+//@   arith math
+//@   requires[set-up@C26] d != nil && ev != nil && d.dispatchPool != nil && d.maxBatchSize >= 1
+//@   requires[batches-present@C26] forall k transmitKey :: in(d.eventBatches, k) ==> d.eventBatches[k] != nil
+//@   requires[pending-batches-are-below-the-limit@C26] forall k transmitKey :: in(d.eventBatches, k) ==> len(d.eventBatches[k].events) < d.maxBatchSize
+//@   let key = destOf(ev)
+//@   let p = d.dispatchPool
+//@   let n0 = ite(in(d.eventBatches, key), len(d.eventBatches[key].events), 0)
+//@   ensures[a-batch-for-its-own-destination-exists] in(d.eventBatches, key) && d.eventBatches[key] != nil
+//@   ensures[appended-to-its-batch-below-the-limit] n0 + 1 < d.maxBatchSize ==> len(d.eventBatches[key].events) == n0 + 1
+//@   ensures[appended-last] n0 + 1 < d.maxBatchSize ==> toInt(d.eventBatches[key].events[n0]) == toInt(ev)
+//@   ensures[not-dispatched-below-the-limit] n0 + 1 < d.maxBatchSize ==> goN(p) == old(goN(p))
+//@   ensures[dispatched-at-the-limit] n0 + 1 >= d.maxBatchSize ==> len(d.eventBatches[key].events) == 0 && goN(p) == old(goN(p)) + 1
+//@   ensures[other-destinations-untouched] forall k transmitKey :: k != key ==> in(d.eventBatches, k) == in(old(d.eventBatches), k) && toInt(d.eventBatches[k]) == toInt(old(d.eventBatches)[k])
+//@   ensures[pending-batches-stay-below-the-limit] forall k transmitKey :: in(d.eventBatches, k) ==> len(d.eventBatches[k].events) < d.maxBatchSize
+//@   modifies ev.EnqueuedUnixMicro, d.eventBatches, field(eventBatch, events), field(eventBatch, startTime), all(goN)
+
+// One round of sendBatch (one sub-batch): the HTTP request is attempted at most twice (a 429/503 with a short
+// Retry-After, or a timeout, earns exactly one more attempt).
+//@ ghost doN(ref) int
+// the client, the pool and the table are set when the transmission is built
+//@ final transmit.DirectTransmission.httpClient
+// helpers of sendBatch: logging / metrics / encoding; none of them sends a request
+//@ assume transmit.(*DirectTransmission).handleBatchFailure
+//@ assume transmit.(*DirectTransmission).handleEventError
+//@ assume transmit.(*batchedEvent).MarshalMsg
+//@ assume transmit.buildRequestURL
+//@ assume transmit.httpError.Timeout
+//@ fragment transmit.(*DirectTransmission).sendBatch loop 1 body props C26 havoc noinv
+//@   arith math
+//@   assert only none
+//@   requires d != nil && d.httpClient != nil
+//@   let c = d.httpClient
+//@   ensures[at-most-two-attempts-per-batch] doN(c) <= old(doN(c)) + 2
+//@   loop 1 invariant[packing-sends-nothing] doN(c) == old(doN(c)) && toInt(d.httpClient) == toInt(c)
+//@   loop 2 invariant[one-request-per-attempt] doN(c) <= old(doN(c)) + try && try <= 2 && toInt(d.httpClient) == toInt(c)
+//@   loop 3 invariant[headers-send-nothing] doN(c) <= old(doN(c)) + try && try < 2 && toInt(d.httpClient) == toInt(c)
+//@   loop 4 invariant[responses-send-nothing] doN(c) <= old(doN(c)) + 2
+//@   loop 5 invariant[errors-send-nothing] doN(c) <= old(doN(c)) + 2
